@@ -89,7 +89,11 @@ def gen_history(rnd, pairs, hid):
             if state.startswith("same_report"):
                 steps.append({"op": "run", "argv": ["validate", "p%s.yaml" % which, "d%s.jsonld" % which, out]})
         elif k < 60:
-            st = {"op": "run", "argv": ["validate", "p%s.yaml" % which, "d%s.jsonld" % which, out]}
+            target = out
+            if rnd.randrange(100) < 7:
+                # the output path is one of the inputs (report written over the data or the profile)
+                target = rnd.choice(["d%s.jsonld" % which, "p%s.yaml" % which])
+            st = {"op": "run", "argv": ["validate", "p%s.yaml" % which, "d%s.jsonld" % which, target]}
             f = rnd.randrange(100)
             if f < 8:
                 st["fault"] = {"op": "write", "path": "/work/" + out, "nth": 1, "err": "ENOSPC", "after": rnd.choice([0, 1, 37, 1000, -1])}
